@@ -267,7 +267,7 @@ def fresh_deadline(conv, now_of=None):
 
 def sleeps_once(ordinal, owner):
     """'wait until there is something in scheduler': the loop is entered with the run flag set (else the thread
-    would leave at once), and every pass that goes round again has slept on the condition exactly once, untimed"""
+    would leave at once), and every pass that goes round again has slept on the condition (untimed) - a pass without a wait would spin with the lock held and nothing could ever be scheduled"""
     def inv(c, L):
         base = clockfloor(c) >= 0 if owner == 'cls' else z3.BoolVal(True)
         if L.phase == 'entry' and ordinal == 0:
@@ -277,7 +277,7 @@ def sleeps_once(ordinal, owner):
             return base
         ev = since(c.trace, ordinal) or []
         waits = [e for e in ev if e[0] == 'wait']
-        return z3.And(base, z3.BoolVal(len(waits) == 1 and waits[0][1] is None))
+        return z3.And(base, z3.BoolVal(len(waits) >= 1 and all(w[1] is None for w in waits)))
     return inv
 
 
